@@ -17,6 +17,7 @@ Shape of this package (different from the others: the quantifier domain is finit
 """
 import sys, os, json, subprocess, hashlib
 sys.path.insert(0, '/verif/lib')
+sys.path.insert(0, '/verif/props/C16')
 
 ROOT = '/verif'
 PDIR = ROOT + '/props/C16'
@@ -56,6 +57,18 @@ def run_dump(build=True):
     if p.returncode != 0:
         raise RuntimeError('c16 dump failed: ' + p.stderr[-1500:])
     recs = [json.loads(l) for l in p.stdout.splitlines() if l.strip()]
+    # private constants that no public trait exposes: read from the source text (marked from_source)
+    import srcscan
+    for crate in ('bls12_381', 'bls12_377'):
+        fq = [r for r in recs if r.get('crate') == crate and r.get('name') == 'fq' and r.get('kind') == 'prime']
+        try:
+            d = srcscan.private_psi(crate, fq[0]['MODULUS'])
+        except Exception as ex:
+            NOTES.append('%s: P_POWER_ENDOMORPHISM coefficients could not be read from the source text (%s): no psi facts' % (crate, ex))
+            continue
+        rec = {'crate': crate, 'kind': 'psi', 'name': 'g2_psi', 'from_source': True}
+        rec.update(d)
+        recs.append(rec)
     # self-test hook (never set in normal runs): C16_TAMPER="crate/name/KEY" adds 1 to that dumped
     # integer, to demonstrate that a wrong constant is reported as a VIOLATION naming it
     t = os.environ.get('C16_TAMPER')
@@ -63,7 +76,9 @@ def run_dump(build=True):
         c, n, k = t.split('/')
         for r in recs:
             if r.get('crate') == c and r.get('name') == n and r.get('kind') != 'id':
-                r[k] = r[k] + 1 if isinstance(r[k], int) else [r[k][0] + 1] + r[k][1:]
+                def bump(v):
+                    return v + 1 if isinstance(v, int) else [bump(v[0])] + v[1:]
+                r[k] = bump(r[k])
     return recs
 
 
@@ -127,6 +142,30 @@ class Fld:
             b = self.mul(b, b)
             e >>= 1
         return r
+
+    # polynomials = coefficient lists, lowest degree first (mirrors C13/Poly.v)
+    def padd(self, f, g):
+        n = max(len(f), len(g))
+        z = self.zero()
+        return [self.add(f[i] if i < len(f) else z, g[i] if i < len(g) else z) for i in range(n)]
+
+    def pscale(self, c, f):
+        return [self.mul(c, a) for a in f]
+
+    def pmul(self, f, g):
+        if not f or not g:
+            return []
+        out = [self.zero() for _ in range(len(f) + len(g) - 1)]
+        for i, a in enumerate(f):
+            for j, b in enumerate(g):
+                out[i + j] = self.add(out[i + j], self.mul(a, b))
+        return out
+
+    def ptrim(self, f):
+        f = list(f)
+        while f and f[-1] == self.zero():
+            f.pop()
+        return f
 
     # affine short Weierstrass law, None = O (mirrors sw_add of ConfigChecks.v)
     def sw_add(self, a, P, Q):
@@ -264,8 +303,10 @@ def build(recs):
             te_facts(r, by, D, F, fld_of)
         elif k == 'glv':
             glv_facts(r, by, D, F, fld_of)
-        elif k in ('bls12', 'bn', 'bw6', 'mnt4', 'mnt6'):
+        elif k in ('bls12', 'bn', 'bw6', 'mnt4', 'mnt6', 'cp6'):
             pairing_facts(r, by, D, F, fld_of)
+        elif k in ('swu', 'wb', 'elligator2', 'psi', 'sw_te'):
+            map_facts(r, by, D, F, fld_of)
     # split off the facts that are known to fail (DEFECTS); only those that really fail are dropped
     kept, dropped = [], []
     for f in facts:
@@ -357,6 +398,35 @@ def prime_facts(r, D, F):
       'flag_square_ok %s %s %s' % (nm('MODULUS'), nm('N'), B(r['CAN_USE_NO_CARRY_SQUARE_OPT'])),
       lambda: [('CAN_USE_NO_CARRY_SQUARE_OPT = (MODULUS[N-1] < u64::MAX >> 2) and not all remaining bits 1 (as documented)',
                 r['CAN_USE_NO_CARRY_SQUARE_OPT'], p < (1 << (64 * N - 2)) and p != (1 << (64 * N - 2)) - 1)])
+    sk = r['SQRT_KIND']
+    if sk == 'tonelli_shanks':
+        sv = [r['SQRT_TWO_ADICITY'], r['SQRT_QNR_TO_TRACE'][0], r['SQRT_TRACE_MINUS_ONE_DIV_TWO']]
+    elif sk == 'case3mod4':
+        sv = [r['SQRT_MODULUS_PLUS_ONE_DIV_FOUR']]
+    else:
+        sv = []
+    kcode = {'tonelli_shanks': 1, 'case3mod4': 2}.get(sk, 0)
+    D(c, nm('SQRT_KIND'), 'Z', zc(kcode))
+    D(c, nm('SQRT_PRECOMP'), 'list Z', zl(sv))
+
+    def sqrt_ev():
+        if p % 4 == 3:
+            return [('p = 3 mod 4: SQRT_PRECOMP = Case3Mod4 { (p+1)/4 }', (sk, sv), ('case3mod4', [(p + 1) // 4]))]
+        out = [('p != 3 mod 4: SQRT_PRECOMP = TonelliShanks', sk, 'tonelli_shanks')]
+        if sk == 'tonelli_shanks':
+            ss, qq, tm = sv
+            out += [('p-1 = 2^two_adicity * (2*trace_minus_one_div_two + 1)', p - 1, (1 << ss) * (2 * tm + 1)),
+                    ('two_adicity, trace_minus_one_div_two = TWO_ADICITY, TRACE_MINUS_ONE_DIV_TWO', (ss, tm), (s, r['TRACE_MINUS_ONE_DIV_TWO'])),
+                    ('quadratic_nonresidue_to_trace = GENERATOR^trace', qq, pow(g, 2 * tm + 1, p)),
+                    ('quadratic_nonresidue_to_trace = TWO_ADIC_ROOT_OF_UNITY', qq, root),
+                    ('quadratic_nonresidue_to_trace^(2^(s-1)) = -1', pow(qq, 1 << max(ss - 1, 0), p), p - 1)]
+        return out
+    F(c, n, 'SQRT_PRECOMP', 'sqrt_precomp',
+      'sqrt_precomp_ok %s %s %s %s && lists_eqb %s [%s; %s; %s]' % (
+          nm('MODULUS'), nm('GENERATOR'), nm('SQRT_KIND'), nm('SQRT_PRECOMP'), nm('SQRT_PRECOMP'),
+          nm('TWO_ADICITY'), nm('TWO_ADIC_ROOT_OF_UNITY'), nm('TRACE_MINUS_ONE_DIV_TWO')) if sk == 'tonelli_shanks' else
+      'sqrt_precomp_ok %s %s %s %s' % (nm('MODULUS'), nm('GENERATOR'), nm('SQRT_KIND'), nm('SQRT_PRECOMP')), sqrt_ev)
+
     b, kk, w = r['SMALL_SUBGROUP_BASE'], r['SMALL_SUBGROUP_BASE_ADICITY'], r['LARGE_SUBGROUP_ROOT_OF_UNITY']
     if b is None and kk is None and w is None:
         pass
@@ -453,6 +523,15 @@ def tower_facts(r, by, D, F, fld_of):
           lambda: [('p^3-1 = 2^s*(2*tm+1), s>0', (p ** 3 - 1, s3 > 0), ((1 << s3) * (2 * tm + 1), True)),
                    ('qnr_to_t^(2^s) = 1', f3.pow(f3.el(q), 1 << s3), f3.one()),
                    ('qnr_to_t^(2^(s-1)) = -1 (order exactly 2^s)', f3.pow(f3.el(q), 1 << max(s3 - 1, 0)), f3.el([-1]))])
+        sk = r.get('SQRT_KIND')
+        sq = [r.get('SQRT_TWO_ADICITY'), r.get('SQRT_TRACE_MINUS_ONE_DIV_TWO')] + list(r.get('SQRT_QNR_TO_TRACE') or [])
+        if sk == 'tonelli_shanks':
+            D(c, nm('SQRT_PRECOMP'), 'list Z', zl(sq))
+        F(c, n, 'SQRT_PRECOMP', 'sqrt_precomp',
+          'lists_eqb %s (%s :: %s :: %s)' % (nm('SQRT_PRECOMP'), nm('TWO_ADICITY'), nm('TRACE_MINUS_ONE_DIV_TWO'), nm('QNR_TO_T'))
+          if sk == 'tonelli_shanks' else 'false',
+          lambda: [('Fp3 SQRT_PRECOMP = TonelliShanks { TWO_ADICITY, QUADRATIC_NONRESIDUE_TO_T, TRACE_MINUS_ONE_DIV_TWO }',
+                    (sk, sq), ('tonelli_shanks', [s3, tm] + list(q)))])
     elif k == 'fp4':
         b2 = by[(c, base)]
         f1, f1c = Fld(p), '(B1 %s_MODULUS)' % pn
@@ -673,6 +752,32 @@ def pairing_facts(r, by, D, F, fld_of):
         F(c, n, 'FINAL_EXPONENT_LAST_CHUNK_1,_ABS_OF_W0,_W0_IS_NEG', 'final_exp',
           '%s_final_exp_ok fq_MODULUS fr_MODULUS %s %s' % (k, nm('W1'), nm('W0')),
           lambda: [('(w1*p + w0) * r = %s' % ('p^2+1' if k == 'mnt4' else 'p^2-p+1'), (w1 * p + w0) * rr, tgt)])
+    elif k == 'cp6':
+        fe, fec = fld_of(c, 'fq3')
+        g1, g2 = by[(c, 'g1')], by[(c, 'g2')]
+        tw = r['TWIST']
+        D(c, nm('TWIST'), 'list Z', zl(tw))
+        loop = -r['ATE_LOOP_COUNT'] if r['ATE_IS_LOOP_COUNT_NEG'] else r['ATE_LOOP_COUNT']
+        D(c, nm('ATE_LOOP_COUNT'), 'Z', zc(loop))
+        w1 = r['FINAL_EXPONENT_LAST_CHUNK_W1']
+        w0 = r['FINAL_EXPONENT_LAST_CHUNK_ABS_OF_W0'] * (-1 if r['FINAL_EXPONENT_LAST_CHUNK_W0_IS_NEG'] else 1)
+        D(c, nm('W1'), 'Z', zc(w1))
+        D(c, nm('W0'), 'Z', zc(w0))
+        a1, b1 = g1['COEFF_A'] + [0, 0], g1['COEFF_B'] + [0, 0]
+        t2 = fe.mul(fe.el(tw), fe.el(tw))
+        F(c, n, 'TWIST', 'twist', 'lists_eqb %s [0; 1; 0]' % nm('TWIST'), lambda: [('TWIST = u', tw, [0, 1, 0])])
+        F(c, n, 'G2 COEFF_A', 'twist_coeff_a', 'mul_is %s (g1_COEFF_A ++ [0; 0]) (tower_sq %s %s) g2_COEFF_A' % (fec, fec, nm('TWIST')),
+          lambda: [('G2::COEFF_A = a * twist^2', fe.el(g2['COEFF_A']), fe.mul(fe.el(a1), t2))])
+        F(c, n, 'G2 COEFF_B', 'twist_coeff_b', 'mul_is %s (g1_COEFF_B ++ [0; 0]) (tower_cube %s %s) g2_COEFF_B' % (fec, fec, nm('TWIST')),
+          lambda: [('G2::COEFF_B = b * twist^3', fe.el(g2['COEFF_B']), fe.mul(fe.el(b1), fe.mul(t2, fe.el(tw))))])
+        h = g1['COFACTOR']
+        F(c, n, 'ATE_LOOP_COUNT', 'ate_loop', 'ate_loop_mod_ok %s fq_MODULUS fr_MODULUS' % nm('ATE_LOOP_COUNT'),
+          lambda: [('ATE_LOOP_COUNT > 0', loop > 0, True), ('ATE_LOOP_COUNT = t - 1 = p (mod r)', (loop - p) % rr, 0)])
+        if loop != p - h * rr:
+            NOTES.append('%s/%s: ATE_LOOP_COUNT is %s, not the documented t - 1 = p - h*r (%d bits vs %d); congruent mod r, which is '
+                         'what the fact states' % (c, n, 'p - r' if loop == p - rr else 'another representative', loop.bit_length(), (p - h * rr).bit_length()))
+        F(c, n, 'FINAL_EXPONENT_LAST_CHUNK_W1,_ABS_OF_W0,_W0_IS_NEG', 'final_exp', 'mnt6_final_exp_ok fq_MODULUS fr_MODULUS %s %s' % (nm('W1'), nm('W0')),
+          lambda: [('(w1*p + w0) * r = p^2-p+1', (w1 * p + w0) * rr, p * p - p + 1)])
     elif k == 'bw6':
         x = -r['X'] if r['X_IS_NEGATIVE'] else r['X']
         D(c, nm('X'), 'Z', zc(x))
@@ -688,9 +793,160 @@ def pairing_facts(r, by, D, F, fld_of):
           lambda: [('r = p_bls12(x): 3r = (x-1)^2 (x^4-x^2+1) + 3x', 3 * rr, (x - 1) ** 2 * (x ** 4 - x * x + 1) + 3 * x),
                    ('3 * X_MINUS_1_DIV_3 = |x - 1|', 3 * r['X_MINUS_1_DIV_3'], abs(x - 1)),
                    ('ATE_LOOP_COUNT_1 = x', l1, x)])
+        ht, hy, t0 = r['H_T'], r['H_Y'], r['T_MOD_R_IS_ZERO']
+        D(c, nm('H_T'), 'Z', zc(ht))
+        D(c, nm('H_Y'), 'Z', zc(hy))
+        g1, g2 = by[(c, 'g1')], by[(c, 'g2')]
+        h1, h2 = g1['COFACTOR'], g2['COFACTOR']
+        w = x ** 5 - 3 * x ** 4 + 3 * x ** 3 - x
+        tt = -w + ht * rr if t0 else w + 3 + ht * rr
+        y3 = w + 3 * hy * rr if t0 else w + 3 + 3 * hy * rr
+        F(c, n, 'H_T,H_Y,T_MOD_R_IS_ZERO (and Fq::MODULUS, G1/G2 COFACTOR)', 'bw6_curve',
+          'bw6_curve_ok %s fq_MODULUS fr_MODULUS %s %s %s g1_COFACTOR g2_COFACTOR' % (nm('X'), nm('H_T'), nm('H_Y'), 'true' if t0 else 'false'),
+          lambda: [('4p = t^2 + 3y^2 with w = x^5-3x^4+3x^3-x, t = %s + H_T*r, 3y = %s + 3*H_Y*r (T_MOD_R_IS_ZERO = %s): 12p = 3t^2 + (3y)^2'
+                    % (('-w', 'w', 'true') if t0 else ('w+3', 'w+3', 'false')), 12 * p, 3 * tt * tt + y3 * y3),
+                   ('t = p + 1 - COFACTOR(G1)*r (trace of G1)', tt, p + 1 - h1 * rr),
+                   ('G2 is a sextic twist: 2(p + 1 - COFACTOR(G2)*r) - t = +-3y', (2 * (p + 1 - h2 * rr) - tt) ** 2, y3 * y3)])
+        f1, f1c = fld_of(c, 'fq')
+        beta = by[(c, 'fq3')]['NONRESIDUE']
+        if r['TWIST_TYPE'] == 'M':
+            F(c, n, 'TWIST_TYPE,G2 COEFF_A,COEFF_B', 'twist',
+              'mul_is %s g1_COEFF_B fq3_NONRESIDUE g2_COEFF_B && el_eq %s g1_COEFF_A [0] && el_eq %s g2_COEFF_A [0]' % (f1c, f1c, f1c),
+              lambda: [('M-twist: b2 = b1 * beta (beta = Fq3::NONRESIDUE)', f1.el(g2['COEFF_B']), f1.mul(f1.el(g1['COEFF_B']), f1.el(beta))),
+                       ('a1 = a2 = 0', (f1.el(g1['COEFF_A']), f1.el(g2['COEFF_A'])), (f1.zero(), f1.zero()))])
+        else:
+            F(c, n, 'TWIST_TYPE,G2 COEFF_A,COEFF_B', 'twist',
+              'mul_is %s g2_COEFF_B fq3_NONRESIDUE g1_COEFF_B && el_eq %s g1_COEFF_A [0] && el_eq %s g2_COEFF_A [0]' % (f1c, f1c, f1c),
+              lambda: [('D-twist: b2 * beta = b1 (beta = Fq3::NONRESIDUE)', f1.mul(f1.el(g2['COEFF_B']), f1.el(beta)), f1.el(g1['COEFF_B'])),
+                       ('a1 = a2 = 0', (f1.el(g1['COEFF_A']), f1.el(g2['COEFF_A'])), (f1.zero(), f1.zero()))])
         F(c, n, 'ATE_LOOP_COUNT_2', 'ate_loop_2',
           'naf_ok %s && (%s * naf_le %s =? %s * %s - %s - 1)' % (nm('ATE_LOOP_COUNT_2'), nm('ATE_SIGN_2'), nm('ATE_LOOP_COUNT_2'), nm('X'), nm('X'), nm('X')),
           lambda: [('digits in {-1,0,1}', all(d in (-1, 0, 1) for d in l2), True), ('signed NAF value = x^2 - x - 1', s2 * naf_le(l2), x * x - x - 1)])
+
+
+def map_facts(r, by, D, F, fld_of):
+    """map-to-curve parameters (SWU / Wahby-Boneh / Elligator2), psi endomorphism coefficients, SW<->TE pairs"""
+    c, n, k = r['crate'], r['name'], r['kind']
+    nm = lambda key: '%s_%s' % (n, key)
+    if k == 'swu':
+        cv = by[(c, r['curve'])]
+        fld, fcoq = fld_of(c, cv['base'])
+        e = fld.el
+        q = fld.p ** fld.deg
+        cn = r['curve']
+        D(c, nm('ZETA'), 'list Z', zl(r['ZETA']))
+        F(c, n, 'ZETA', 'zeta_nonsquare', 'pow_is %s %s ((%s_P ^ %s_BASE_DEGREE - 1) / 2) [-1]' % (fcoq, nm('ZETA'), cn, cn),
+          lambda: [('ZETA^((q-1)/2) = -1 (non-square)', fld.pow(e(r['ZETA']), (q - 1) // 2), e([-1]))])
+        F(c, n, 'COEFF_A,COEFF_B of the SWU curve', 'ab_nonzero', 'nonzero_ok %s %s_COEFF_A && nonzero_ok %s %s_COEFF_B' % (fcoq, cn, fcoq, cn),
+          lambda: [('a != 0', e(cv['COEFF_A']) != fld.zero(), True), ('b != 0', e(cv['COEFF_B']) != fld.zero(), True)])
+
+        def exc():
+            A, B, Z = e(cv['COEFF_A']), e(cv['COEFF_B']), e(r['ZETA'])
+            x = fld.mul(B, fld.inv(fld.mul(Z, A)))
+            g = fld.add(fld.add(fld.mul(fld.mul(x, x), x), fld.mul(A, x)), B)
+            return [('g(b/(ZETA*a))^((q-1)/2) = 1: the exceptional input u = 0 lands on a square (RFC 9380 6.6.2 criterion 4)',
+                     fld.pow(g, (q - 1) // 2), fld.one())]
+        F(c, n, 'ZETA', 'zeta_exceptional', 'swu_exceptional_ok %s (%s_P ^ %s_BASE_DEGREE) %s_COEFF_A %s_COEFF_B %s' % (fcoq, cn, cn, cn, cn, nm('ZETA')), exc)
+    elif k == 'wb':
+        dom, cod = by[(c, r['domain'])], by[(c, r['codomain'])]
+        fld, fcoq = fld_of(c, dom['base'])
+        e = fld.el
+        for key in ('X_NUM', 'X_DEN', 'Y_NUM', 'Y_DEN'):
+            D(c, nm(key), 'list (list Z)', zll(r[key]))
+
+        def ev():
+            if dom['base'] != cod['base']:
+                return [('domain and codomain over the same field', dom['base'], cod['base'])]
+            xn, xd, yn, yd = [[e(v) for v in r[key]] for key in ('X_NUM', 'X_DEN', 'Y_NUM', 'Y_DEN')]
+            a1, b1, A, B = e(dom['COEFF_A']), e(dom['COEFF_B']), e(cod['COEFF_A']), e(cod['COEFF_B'])
+            pm = fld.pmul
+            xd2 = pm(xd, xd)
+            xd3 = pm(xd2, xd)
+            lhs = fld.ptrim(pm(pm(yn, yn), pm([b1, a1, fld.zero(), fld.one()], xd3)))
+            rhs = fld.ptrim(pm(fld.padd(pm(xn, pm(xn, xn)), fld.padd(fld.pscale(A, pm(xn, xd2)), fld.pscale(B, xd3))), pm(yd, yd)))
+            out = [('x_map_denominator, y_map_denominator, y_map_numerator are not the zero polynomial',
+                    (fld.ptrim(xd) != [], fld.ptrim(yd) != [], fld.ptrim(yn) != []), (True, True, True)),
+                   ('degree of yn^2 (x^3+a\'x+b\') xd^3 = degree of (xn^3 + A xn xd^2 + B xd^3) yd^2', len(lhs), len(rhs))]
+            for i in range(min(len(lhs), len(rhs))):
+                if lhs[i] != rhs[i]:
+                    out.append(('coefficient of x^%d in yn^2 (x^3+a\'x+b\') xd^3 = (xn^3 + A xn xd^2 + B xd^3) yd^2' % i, lhs[i], rhs[i]))
+            return out
+        F(c, n, 'ISOGENY_MAP', 'isogeny_identity',
+          'wb_iso_ok %s %s_COEFF_A %s_COEFF_B %s_COEFF_A %s_COEFF_B %s %s %s %s' % (
+              fcoq, r['domain'], r['domain'], r['codomain'], r['codomain'], nm('X_NUM'), nm('X_DEN'), nm('Y_NUM'), nm('Y_DEN')), ev)
+    elif k == 'elligator2':
+        cv = by[(c, r['curve'])]
+        fld, fcoq = fld_of(c, cv['base'])
+        e, m = fld.el, fld.mul
+        q = fld.p ** fld.deg
+        cn = r['curve']
+        for key in ('Z', 'ONE_OVER_COEFF_B_SQUARE', 'COEFF_A_OVER_COEFF_B'):
+            D(c, nm(key), 'list Z', zl(r[key]))
+        A, B = e(cv['MONT_COEFF_A']), e(cv['MONT_COEFF_B'])
+        F(c, n, 'Z', 'z_nonsquare', 'pow_is %s %s ((%s_P ^ %s_BASE_DEGREE - 1) / 2) [-1]' % (fcoq, nm('Z'), cn, cn),
+          lambda: [('Z^((q-1)/2) = -1 (non-square)', fld.pow(e(r['Z']), (q - 1) // 2), e([-1]))])
+        F(c, n, 'ONE_OVER_COEFF_B_SQUARE', 'one_over_b_square', 'mul_is %s %s (tower_sq %s %s_MONT_COEFF_B) [1]' % (fcoq, nm('ONE_OVER_COEFF_B_SQUARE'), fcoq, cn),
+          lambda: [('ONE_OVER_COEFF_B_SQUARE * B^2 = 1 (B = MontCurveConfig::COEFF_B)', m(e(r['ONE_OVER_COEFF_B_SQUARE']), m(B, B)), fld.one())])
+        F(c, n, 'COEFF_A_OVER_COEFF_B', 'a_over_b', 'mul_is %s %s %s_MONT_COEFF_B %s_MONT_COEFF_A' % (fcoq, nm('COEFF_A_OVER_COEFF_B'), cn, cn),
+          lambda: [('COEFF_A_OVER_COEFF_B * B = A (MontCurveConfig coefficients)', m(e(r['COEFF_A_OVER_COEFF_B']), B), A)])
+    elif k == 'psi':
+        # untwist-Frobenius-twist endomorphism of a BLS12 G2: (x, y) -> (c0 x^p, c1 y^p), psi^2: x -> c2 x
+        pr = by[(c, 'pairing')]
+        f2, f2c = fld_of(c, 'fq2')
+        e = f2.el
+        p = f2.p
+        xi = e(by[(c, 'fq6')]['NONRESIDUE'])
+        for key in ('COEFF_0', 'COEFF_1', 'DOUBLE_COEFF_0'):
+            D(c, nm(key), 'list Z', zl(r[key]))
+        src = ' [parsed from the source text: private constant]' if r.get('from_source') else ''
+        for key, num, numc, den, what in (('COEFF_0', p - 1, 'fq_MODULUS - 1', 3, '(p-1)/3'),
+                                          ('COEFF_1', p - 1, 'fq_MODULUS - 1', 2, '(p-1)/2'),
+                                          ('DOUBLE_COEFF_0', p * p - 1, 'fq_MODULUS * fq_MODULUS - 1', 3, '(p^2-1)/3')):
+            ex = num // den
+            v = r[key]
+            div = '((%s) mod %d =? 0)' % (numc, den)
+            if pr['TWIST_TYPE'] == 'M':
+                F(c, n, 'P_POWER_ENDOMORPHISM ' + key + src, key.lower(),
+                  '%s && mul_pow_is %s %s fq6_NONRESIDUE ((%s) / %d) [1]' % (div, f2c, nm(key), numc, den),
+                  (lambda v=v, ex=ex, what=what, num=num, den=den: [
+                      ('%d divides the exponent numerator' % den, num % den, 0),
+                      ('M-twist: c * xi^(%s) = 1 (c = xi^(-%s))' % (what, what), f2.mul(e(v), f2.pow(xi, ex)), f2.one())]))
+            else:
+                F(c, n, 'P_POWER_ENDOMORPHISM ' + key + src, key.lower(),
+                  '%s && pow_is %s fq6_NONRESIDUE ((%s) / %d) %s' % (div, f2c, numc, den, nm(key)),
+                  (lambda v=v, ex=ex, what=what, num=num, den=den: [
+                      ('%d divides the exponent numerator' % den, num % den, 0),
+                      ('D-twist: c = xi^(%s)' % what, e(v), f2.pow(xi, ex))]))
+    elif k == 'sw_te':
+        S, T = by[(c, r['sw'])], by[(c, r['te'])]
+        fld, fcoq = fld_of(c, T['base'])
+        e, m, sub, add = fld.el, fld.mul, fld.sub, fld.add
+        sn, tn = r['sw'], r['te']
+
+        def ev():
+            if S['base'] != T['base']:
+                return [('both models over the same field', S['base'], T['base'])]
+            a, d, x, y = [e(T[key]) for key in ('COEFF_A', 'COEFF_D', 'GENERATOR_X', 'GENERATOR_Y')]
+            A, B = e(T['MONT_COEFF_A']), e(T['MONT_COEFF_B'])
+            sa, sb, X, Y = [e(S[key]) for key in ('COEFF_A', 'COEFF_B', 'GENERATOR_X', 'GENERATOR_Y')]
+            c3, c2, c4, c9, c27 = e([3]), e([2]), e([4]), e([9]), e([27])
+            u3 = sub(m(c3, m(B, X)), A)
+            v3 = m(c3, m(x, m(B, Y)))
+            kk = m(B, sub(a, d))
+            out = [('3 != 0 and Montgomery B != 0', (c3 != fld.zero(), B != fld.zero()), (True, True)),
+                   ('SW a: 3 B^2 a_sw = 3 - A^2 (Weierstrass form of the Montgomery model B v^2 = u^3 + A u^2 + u)', m(m(c3, m(B, B)), sa), sub(c3, m(A, A))),
+                   ('SW b: 27 B^3 b_sw = 2 A^3 - 9 A', m(m(c27, m(m(B, B), B)), sb), sub(m(c2, m(m(A, A), A)), m(c9, A))),
+                   ('TE generator y != 1', y != fld.one(), True),
+                   ('generators correspond, u-coordinate: (3 B X - A)(1 - y) = 3 (1 + y)', m(u3, sub(fld.one(), y)), m(c3, add(fld.one(), y)))]
+            if kk == c4:
+                out.append(('generators correspond, v-coordinate (B(a-d) = 4): 3 x B Y = 3 B X - A', v3, u3))
+            else:
+                out.append(('generators correspond, v-coordinate up to the square root of B(a-d)/4: (3 x B Y)^2 B (a-d) = 4 (3 B X - A)^2',
+                            m(m(v3, v3), kk), m(c4, m(u3, u3))))
+            return out
+        F(c, n, 'SW and TE models: COEFF_A,COEFF_B,GENERATOR', 'sw_te',
+          'sw_te_ok %s %s_COEFF_A %s_COEFF_D %s_GENERATOR_X %s_GENERATOR_Y %s_MONT_COEFF_A %s_MONT_COEFF_B %s_COEFF_A %s_COEFF_B %s_GENERATOR_X %s_GENERATOR_Y' % (
+              fcoq, tn, tn, tn, tn, tn, tn, sn, sn, sn, sn), ev)
 
 
 # ------------------------------------------------------------------ Coq generation
@@ -775,7 +1031,8 @@ def registry_scan(recs):
             if '/constraints/' in f:
                 continue
             for m in re.finditer(r'^impl\s+(\w+Config)\s+for\s+(\w+)', open(f).read(), re.M):
-                if m.group(1) in ('WBConfig', 'SWUConfig', 'Elligator2Config'):
+                kind = {'WBConfig': 'wb', 'SWUConfig': 'swu', 'Elligator2Config': 'elligator2'}.get(m.group(1))
+                if kind and not any(r['crate'] == crate and r['kind'] == kind for r in recs):
                     unc.append('%s: %s for %s (%s) -- map-to-curve parameters not covered' % (crate, m.group(1), m.group(2), os.path.basename(f)))
     return unc
 
@@ -786,9 +1043,24 @@ def pre(ctx):
         ctx['notes'].append('regenerated from the dump: ' + ', '.join(changed))
     ctx['notes'].append('configurations dumped: %d records, %d closed facts over %d crates' % (
         len([r for r in recs if r['kind'] != 'id']), len(facts), len({f.crate for f in facts})))
+    # cross-check of the dump path against the literals in the source text (machinery check, not a fact)
+    if os.environ.get('C16_TAMPER'):
+        ctx['notes'].append('source-text cross-check skipped (C16_TAMPER self-test)')
+    else:
+        import srcscan
+        comp, skip, bad = srcscan.scan([r for r in recs if not r.get('from_source')])
+        _STATE['src_bad'] = bad
+        reexp = [x for x in skip if 're-exported' in x]
+        other = [x for x in skip if 're-exported' not in x]
+        ctx['notes'].append('source-text cross-check: %d dumped constants equal the literal parsed from /repo source, %d mismatches; '
+                            'skipped: %d prime fields re-exported from another crate, %d non-literal initialisers (%s)' % (
+                                len(comp), len(bad), len(reexp), len(other), '; '.join(other)[:400]))
+        if len(comp) < 400:
+            _STATE['src_bad'] = bad + ['only %d constants could be compared (parser broken?)' % len(comp)]
     unc = registry_scan(recs)
-    unc += ['BW6 H_T/H_Y/T_MOD_R_IS_ZERO relations, G2 twist of bw6/cp6, SWU/WB isogeny maps, Elligator2 constants, '
-            'ed_on_bls12_381 / bandersnatch SW<->TE generator correspondence: dumped partially or not at all, no fact']
+    unc += ['specialised mul_by_nonresidue / mul_by_a overrides (behaviour, see C02), psi coefficients of curves/bls12_381 and bls12_377 '
+            'are private constants (read from the source text, not from the compiled crate), SQRT_PRECOMP of Fp2/Fp4/Fp6/Fp12 is None (nothing to check), '
+            'GLV / psi based subgroup checks and cofactor clearing (behaviour, not constants)']
     ctx['notes'].append('uncovered (not a violation): ' + '; '.join(unc))
     if _STATE.get('dropped'):
         ctx['notes'].append('facts excluded because they fail on this tree (defects reported in props/C16/NOTES.md): ' + '; '.join(_STATE['dropped']))
@@ -799,6 +1071,9 @@ def pre(ctx):
 def extra(ctx, cases, lines, impl_out, model_out):
     if 'facts' not in _STATE:
         regenerate(build=False)
+    if _STATE.get('src_bad'):
+        # the dump machinery is broken (not a property violation): the engine reports MACHINERY-ERROR
+        raise RuntimeError('c16 dump disagrees with the literals in the source text: ' + ' | '.join(_STATE['src_bad'][:5]))
     # the engine expects (record, why) pairs
     return [(m, m['why']) for m in evaluate(_STATE['facts'])]
 
